@@ -115,7 +115,15 @@ def run(c, facts, tier):
             if ca["from"] == "char":
                 # only on the constant record terminators
                 consts = all(n_.get("t") == "char" and ord(n_["v"]) < 256 for f2 in facts.nontest_fns() for cl in find_all(f2.body, lambda x: x.get("k") == "mcall" and x["m"] in ("get_printer", "get_file_printer")) for some in find_all(cl["args"], lambda x: x.get("k") == "call" and rx.path_str(x["f"]) == "Some") for n_ in some["args"])
-                ok = fn == facts.fn("scheme::manager::terminator_escape").key and consts
+                # the cast sits in the terminator rendering: the helper of that role, or — when the rendering was folded into
+                # a Display impl or a method of a private type — any function of the managers' module (the only characters
+                # that module handles are terminators; patterns and file names are strings)
+                try:
+                    in_role = fn == facts.fn("scheme::manager::terminator_escape").key
+                except F.AnchorMissing:
+                    in_role = False
+                mgr_mod = tuple(facts.fn(codegen.mgr_key(facts, codegen.MANAGERS[0], "get_printer")).module)
+                ok = (in_role or (fn in facts.fns and tuple(facts.fns[fn].module) == mgr_mod)) and consts
                 c.ob("C07.no-narrowing", fn, "char as %s" % ca["to"], ok, "character → byte cast on the record terminator; every terminator passed by the code generator is a literal character < 256: %s (not a user number)" % consts, nontrivial=False)
                 continue
             ok = wt >= wf and (ca["from"][0] == ca["to"][0] or (ca["from"][0] == "u" and wt > wf))
